@@ -67,14 +67,18 @@ func VerifC13_PostDefaults() {
 	for i := 0; i < n; i++ {
 		pa := &open_api_models.PostableAlert{}
 		var e exp
-		switch vfChoice("labels", 3) {
+		switch vfChoice("labels", 4) {
 		case 0:
 			pa.Labels = open_api_models.LabelSet{"alertname": "A", "empty": ""}
 			e.valid = true
 		case 1:
-			pa.Labels = open_api_models.LabelSet{"only-empty": ""} // nothing left after dropping empty values
+			pa.Labels = open_api_models.LabelSet{"alertname": "", "instance": ""} // nothing left after dropping empty values
 		case 2:
 			pa.Labels = open_api_models.LabelSet{"alertname": "B"}
+			e.valid = true
+		case 3:
+			// an empty-valued label is dropped before validation, whatever its name
+			pa.Labels = open_api_models.LabelSet{"alertname": "C", "": ""}
 			e.valid = true
 		}
 		hasStart, hasEnd := vfBool("hasStart"), vfBool("hasEnd")
